@@ -5,8 +5,6 @@ from ..harness import Scenario
 
 D = Decimal
 META = {
-    "claimed": False,
-    "na_reason": "check under construction",
     "level": "model_checking",
     "level_text": "Bounded symbolic model checking: a real Broker with real markets is put into an arbitrary valid state (wallet balances, prices, "
     "liquidity and pending fees, scaled supplies/debts and indices, vault collateral / short / lent LP position, option cash and holdings, "
